@@ -236,13 +236,23 @@ class PageRenderer:
                         # If header text exists, proceed.
                         pass
 
-            # Remove columns if necessary (page_by/subline_by)
-            # Note: page.data already has columns removed if populated from it.
-            # Filter only if text is from original document with extra columns.
-            # Since we simplified text to be a list, we can't easily filter by name
-            # unless we assume order or have metadata.
-            # For now, we assume header text matches the current page columns.
-            pass
+            # Widths inherited from the body were sized for the full table. When
+            # page_by/subline_by columns are not displayed, the header has one
+            # cell per displayed column, so follow the displayed body columns'
+            # widths to keep header and body boundaries aligned.
+            if isinstance(header_copy.text, pl.DataFrame):
+                n_header_cells = header_copy.text.shape[1]
+            else:
+                n_header_cells = len(header_copy.text) if header_copy.text else 0
+            body_widths = page.table_attrs.col_rel_width if page.table_attrs else None
+            if (
+                n_header_cells > 0
+                and header_copy.col_rel_width is not None
+                and len(header_copy.col_rel_width) != n_header_cells
+                and body_widths is not None
+                and len(body_widths) == n_header_cells
+            ):
+                header_copy.col_rel_width = list(body_widths)
 
             # Apply top border for first page/first header
             if (
